@@ -153,8 +153,12 @@ def obsReply (d n one : Nat) (isKet : Bool) (st H : Mat) : String :=
   let hrh := (Mat.mul hr (Mat.dagger H)).memo
   let m2 := Mat.trace hrh                                   -- Tr(HρH†) = Tr(ρH²) for Hermitian H
   let m2def := Mat.trace (Mat.mul (Mat.mul H H).memo rho)
-  let codeSq := Mat.trace (Mat.mul (Mat.dagger hrh) hrh)
-  let codeSub := Mat.trace (Mat.mul (Mat.dagger rho) hrh)
+  -- what the tree stores: identity.expect(HρH†) and that minus expect(H)²
+  let codeM2 := Mat.trace (Mat.mul (Mat.ident H.r) hrh)
+  let codeVar := codeM2 - e * e
+  -- the formulas before the repair of F25/F26 (kept for reference)
+  let oldSq := Mat.trace (Mat.mul (Mat.dagger hrh) hrh)
+  let oldSub := Mat.trace (Mat.mul (Mat.dagger rho) hrh)
   let extra :=
     if isKet then
       [("energy_ket", jStr (showCQ (expectKet H st)))]
@@ -168,8 +172,10 @@ def obsReply (d n one : Nat) (isKet : Bool) (st H : Mat) : String :=
     ("m2", jStr (showCQ m2)),
     ("m2def", jStr (showCQ m2def)),
     ("var", jStr (showCQ (m2def - e * e))),
-    ("code_m2_sq", jStr (showCQ codeSq)),
-    ("code_sub", jStr (showCQ codeSub))] ++ extra)
+    ("code_m2", jStr (showCQ codeM2)),
+    ("code_var", jStr (showCQ codeVar)),
+    ("old_m2_sq", jStr (showCQ oldSq)),
+    ("old_sub", jStr (showCQ oldSub))] ++ extra)
 
 def handle (m : M) (line : String) : M × String :=
   match (line.trimAscii.toString.splitOn " ").filter (· ≠ "") with
